@@ -10,6 +10,7 @@ import (
 	"time"
 
 	"github.com/Oneledger/protocol/action"
+	"github.com/Oneledger/protocol/data/keys"
 
 	"verif/catalogue"
 	"verif/explore"
@@ -367,6 +368,32 @@ func attacksFor(prop string, t *harness.TxSpec, w *harness.World, thorough bool)
 	// DOMAIN_SEND of a negative amount debiting the name's beneficiary - was reported by the no-value-creation
 	// check only because the victim's balance also went below zero.)
 	out := addressAttacks(t, w, thorough)
+	// kinds with several signers: one slot of the signature list carries the public key of a funded account that
+	// has nothing to do with the transaction, with junk for a signature; the other slots are genuine (the fee step
+	// charges the owner of the key in slot 0). (Added after a seeded change - required signers looked up among the
+	// signatures in any order, so that one genuine signature served two roles of one address and the other slot
+	// was never looked at - was reported by the signature check C04 only.)
+	if by := bystander(t, w); by != nil && t.SignFn == nil && len(t.Signers) >= 2 {
+		for i := range t.Signers {
+			i := i
+			sp := *t
+			sp.Memo = t.Memo + "~slotkey"
+			signers := t.Signers
+			sp.SignFn = func(raw action.RawTx) []action.Signature {
+				msg := raw.RawBytes()
+				var sigs []action.Signature
+				for k, a := range signers {
+					if k == i {
+						sigs = append(sigs, action.Signature{Signer: by.Pub, Signed: make([]byte, 64)})
+					} else {
+						sigs = append(sigs, action.Signature{Signer: a.Pub, Signed: a.Sign(msg)})
+					}
+				}
+				return sigs
+			}
+			out = append(out, attack{name: fmt.Sprintf("signatures[%d]=key-of-a-funded-bystander+junk", i), field: "signatures", class: fmt.Sprintf("bystander-key-in-slot-%d", i), spec: &sp})
+		}
+	}
 	for _, a := range amountAttacks(t) {
 		if strings.HasPrefix(a.class, "minus-") {
 			out = append(out, a)
@@ -432,8 +459,11 @@ func signersOf(wire []byte) []string {
 		return nil
 	}
 	var out []string
+	// an account has SIGNED a transaction if the list carries a signature that verifies under its key over the
+	// transaction's signed bytes - a public key in a signature slot is not a signature
+	msg := st.RawBytes()
 	for _, s := range st.Signatures {
-		if h, err := s.Signer.GetHandler(); err == nil && h.Address() != nil {
+		if h, err := s.Signer.GetHandler(); err == nil && h.Address() != nil && verifies(h, msg, s.Signed) {
 			out = append(out, strings.ToLower(h.Address().String()))
 		}
 	}
@@ -447,6 +477,16 @@ func signersOf(wire []byte) []string {
 		}
 	}
 	return out
+}
+
+// verifies runs the key handler's own verification, shielding the oracle from a handler that panics on junk.
+func verifies(h keys.PublicKeyHandler, msg, sig []byte) (ok bool) {
+	defer func() {
+		if recover() != nil {
+			ok = false
+		}
+	}()
+	return h.VerifyBytes(msg, sig)
 }
 
 // validatorsOf extracts validator address -> stake address, and validators found guilty at height h.
